@@ -157,6 +157,27 @@ func s10() {
 	vs.Event("close:" + errStr(in.Close()))
 }
 
+// S11: the device keeps sending while the port is stopped and closed: output
+// of the helper that nobody reads any more must not keep Close from returning.
+func s11() {
+	sc := script(lines, 0)
+	in := newIn()
+	vs.Event("open:" + errStr(in.Open()))
+	stop, err := in.Listen(listener(1, nil), drivers.ListenConfig{})
+	vs.Event("listen1:" + errStr(err))
+	if err != nil {
+		return
+	}
+	vs.GoNamed("device", func() {
+		sc.Trigger.Send(0)
+		sc.Trigger.Send(1)
+	})
+	stop()
+	vs.Event("stop1-returned")
+	vs.Event("close:" + errStr(in.Close()))
+	vs.Event(fmt.Sprintf("isopen:%v", in.IsOpen()))
+}
+
 // S3: the helper cannot be started twice, then can.
 func s3() {
 	script(lines, 2)
@@ -414,6 +435,12 @@ func scenarios() []scenario {
 				return "delivery:lost", "a line written while a listener was active was not delivered to it"
 			}
 			return "", ""
+		}},
+		{"S11-close-while-device-sends", s11, func(e *vs.Exec) (string, string) {
+			if s, w := deliveryRules(e); s != "" {
+				return s, w
+			}
+			return expectSeq(e, []string{"open:", "listen1:", "close:", "isopen:"}, []string{"open:nil", "listen1:nil", "close:nil", "isopen:false"})
 		}},
 		{"S3-helper-cannot-start", s3, func(e *vs.Exec) (string, string) {
 			return expectSeq(e, []string{"open:", "close:", "isopen:"}, []string{"open:error", "isopen:false", "open:error", "close:nil", "open:nil", "isopen:true", "close:nil", "isopen:false"})
